@@ -26,6 +26,25 @@ RULE = (
 ASSUMPTIONS = ["values for the probes come from the harness's minimal-instance builder", "rejected = any Exception"]
 
 
+def alt_scalars(t):
+    """Valid but unusual values of an element: falsy ones and negative ones."""
+    from ofxtools import Types
+
+    if isinstance(t, Types.Bool):
+        return [["bool", False]]
+    if isinstance(t, Types.Integer):
+        return [["int", 0], ["int", -1]]
+    if isinstance(t, Types.Decimal):
+        k = 0 if t.scale is None else -t.scale.as_tuple().exponent
+        frac = ("." + "0" * k) if k else ""
+        return [["dec", "0" + (frac or ".00")], ["dec", "-0" + (("." + "0" * (k - 1) + "5") if k else ".52")]]
+    if isinstance(t, Types.OneOf) or isinstance(t, Types.DateTime):
+        return []
+    if isinstance(t, Types.String):
+        return [["str", "0"], ["str", "N"]]
+    return []
+
+
 def obligations(cls):
     name = cls.__name__
     out = [{"ob": "found-by-tag"}, {"ob": "schema-walk"}]
@@ -34,6 +53,10 @@ def obligations(cls):
             out.append({"ob": "unsupported", "attr": attr})
         else:
             out.append({"ob": "child", "attr": attr, "kind": kind})
+            if kind == "elem" and alt_scalars(t):
+                # the same probe with values a careless "if value:" / "looks like a number" test would drop
+                for i in range(len(alt_scalars(t))):
+                    out.append({"ob": "child", "attr": attr, "kind": kind, "alt": i})
     opt, req = M.mutex_groups(cls)
     for g in opt:
         out.append({"ob": "group", "group": list(g), "required": False})
@@ -135,6 +158,9 @@ def check_case(case):
                 else:
                     desc = M.minimal(cls, with_attr=attr)
                 _custom_patch(desc, attr)
+                if "alt" in case:
+                    t = {a: tt for a, k, tt in M.decl(cls)}[attr]
+                    desc["kw"][attr] = alt_scalars(t)[case["alt"]]
                 inst = M.build(desc)
             except Exception as e:
                 return [(f"child-cannot-be-constructed/{kind}", f"{name}.{attr}: {e!r}")]
